@@ -20,6 +20,12 @@ func T3EncBufferBounds(p *AsmProg, kind string) func(x *Exec) {
 		s := x.st
 		// "omitempty:<bits>[f]": a struct with one omitempty scalar field of that width
 		omitW, omitFloat := 0, false
+		var omitLen *smt.Term // length word of an omitempty string / []byte field
+		omitLenKind := ""
+		if kind == "omitempty:string" || kind == "omitempty:bytes" {
+			omitLenKind = strings.TrimPrefix(kind, "omitempty:")
+			kind = omitLenKind
+		}
 		if strings.HasPrefix(kind, "omitempty:") {
 			w := strings.TrimPrefix(kind, "omitempty:")
 			if strings.HasSuffix(w, "f") {
@@ -126,6 +132,9 @@ func T3EncBufferBounds(p *AsmProg, kind string) func(x *Exec) {
 		case "bytes":
 			// []byte of 0..6 bytes
 			bl := x.newInput("byteslen", 64)
+			if omitLenKind == "bytes" {
+				omitLen = bl
+			}
 			x.assume(s.Ule(bl, x.c64(6)))
 			x.setRange(bl, 0, 6)
 			bo := x.newBytes(6, "bytes")
@@ -349,6 +358,14 @@ func T3EncBufferBounds(p *AsmProg, kind string) func(x *Exec) {
 			x.check(s.Ule(l, c), "assert", "encoder returns a buffer whose length exceeds its capacity")
 			x.check(s.Ule(c, x.objLSize(cur)), "assert", "encoder returns a buffer whose capacity exceeds its allocation")
 			x.covers["returned"] = true
+			if omitLenKind == "string" {
+				omitLen = slen
+			}
+			if omitLen != nil {
+				omitted := s.Eq(s.Sub(l, len0), x.c64(2))
+				x.check(s.Eq(omitted, s.Eq(omitLen, x.c64(0))), "assert", "an omitempty string / []byte field is left out although it is not empty, or written although it is empty")
+				x.covers["omitempty"] = true
+			}
 			if omitW > 0 {
 				// the field is left out (the object is "{}": two bytes) exactly when it holds the
 				// zero value of its type: every bit of its width counts (for floats, -0 may go
